@@ -33,6 +33,9 @@ CHECKS = {
     "C12": ("differential property-based testing of a parser on untrusted bytes: header-shape generator with single perturbations + exhaustive small word strings + every truncation, against an independent validator; accessor agreement as a metamorphic check",
             "MessageView::new's verdict is compared with an independent validator on perturbed headers, arbitrary strings, every prefix of valid messages and every string of up to 6 (8) words over {0,1,2,3,u32::MAX}; on accepted views all accessors are exercised at indices 0..N+2 and usize::MAX and must agree with each other and with the reference parse, with values tiling the payload by address.",
             "Trusts refimpl/tlv_ref.rs.", "DESIGN.md §5 C12"),
+    "C14": ("differential property-based testing against i128 reference arithmetic, with a boundary-biased generator and a complete grid of window edges x anchor times",
+            "Hundreds of thousands (tens of millions in thorough) of generated (local time, base time, voucher) triples around both window edges, the epoch (including negative sub-millisecond times), the calendar limits and base times near 0 / 2^63 / 2^64, with correct, off-by-one, foreign-parameter and random vouchers; accept/reject compared with the rule evaluated in i128; plus a complete edge grid and now() with a provider answering clock - diff.",
+            "Local milliseconds are the floor of the local time; voucher validity decided by the raffle crate with the crate's CHECK string.", "DESIGN.md §5 C14"),
     "C15": ("model-based property testing: exhaustive DFS over operation sequences + proptest random sequences, VecDeque as reference model",
             "Every operation sequence over a 10-symbol alphabet up to depth 8 (9 in thorough) on three backings is enumerated and compared step by step with VecDeque, then tens of thousands (millions in thorough) of random sequences of up to 200 operations; the space bound is read through a hook, the crate's debug assertions are on. Exhaustive within the bound, sampled beyond it.",
             "VecDeque is the reference; bounded sequence length; hooks: sliding_deque/verif-hooks (verif_rep).", "DESIGN.md §5 C15"),
